@@ -171,10 +171,10 @@ def run(ctx):
             ctx.check(hi == MAXV, "C13-c", ins.key, "accepted values are <= 2^62-1 (encodable as a varint)",
                       "insert accepts values up to %s: a builder value of 2^62 or more is stored and Settings::len()/encode() later panic in "
                       "VarInt::from_u64(..).unwrap() during connection setup" % hi, "<= 2^62-1", None, p.describe())
-            full = [t for t in p.tests if expr.cmp_nf(t[3], t[2]) and "param_1.len" in pa.vfmt(expr.cmp_nf(t[3], t[2])[0]) and
-                    expr.mentions(expr.cmp_nf(t[3], t[2])[2], lambda n: n[0] == "call" and pa.short(n[1]) == "len")]
-            ctx.check(bool(full) and expr.cmp_nf(full[0][3], full[0][2])[1] == "<", "C13-c", ins.key, "stored only when the table has room",
-                      "insert writes an entry without `len < entries.len()`", "")
+            full = [nf for nf in (expr.orient(expr.cmp_nf(t[3], t[2]), lambda v: "param_1.len" in pa.vfmt(v) and not expr.mentions(v, lambda n: n[0] == "call")) for t in p.tests)
+                    if nf and expr.mentions(nf[2], lambda n: n[0] == "call" and pa.short(n[1]) == "len")]
+            ctx.check(bool(full) and full[0][1] == "<", "C13-c", ins.key, "stored only when the table has room",
+                      "insert writes an entry without `len < entries.len()` (found: %s)" % [nf[1] for nf in full], "")
             rep = [t for t in p.tests if t[3][0] == "call" and pa.short(t[3][1]) in ("any", "contains")]
             ctx.check(len(rep) == 1 and pa.short(rep[0][3][1]) == "any" and rep[0][2] == "false", "C13-c", ins.key, "stored only when the identifier is new",
                       "duplicate test on the Ok path: %s" % [(t[1][:50], t[2]) for t in rep], "")
